@@ -6,15 +6,16 @@ package simrt
 
 import (
 	"fmt"
-	"runtime/metrics"
-	"syscall"
-	"strings"
 	"hash/fnv"
 	"math/rand"
 	"runtime"
+	"runtime/metrics"
 	"sort"
 	"strconv"
+	"strings"
 	"sync"
+	"sync/atomic"
+	"syscall"
 	"testing/synctest"
 	"time"
 )
@@ -56,8 +57,8 @@ type WaitQ struct {
 
 // Event is an externally enabled action (e.g. a network delivery) the scheduler may pick.
 type Event interface {
-	EventID() int   // stable id, distinct from thread ids (use >= EventBase)
-	Enabled() bool  // may fire now
+	EventID() int    // stable id, distinct from thread ids (use >= EventBase)
+	Enabled() bool   // may fire now
 	Fire(*rand.Rand) // executed by the scheduler goroutine while no thread runs
 }
 
@@ -68,9 +69,9 @@ type Policy int
 
 const (
 	PolRandom Policy = iota
-	PolSticky         // keep running the same thread with probability 3/4
-	PolPCT            // random priorities with a few priority change points
-	PolFIFO           // lowest id first (deterministic baseline)
+	PolSticky        // keep running the same thread with probability 3/4
+	PolPCT           // random priorities with a few priority change points
+	PolFIFO          // lowest id first (deterministic baseline)
 )
 
 // Config of one simulated run.
@@ -87,6 +88,7 @@ type Config struct {
 	FIFOSubstr string
 	HB         bool
 	TrackAlloc bool
+	FnYield    bool // function entries of instrumented code are scheduling points
 }
 
 // Sim is the state of one run.
@@ -109,29 +111,29 @@ type Sim struct {
 	Deaths   []*Thread // threads that died from an escaped panic ("process death")
 	EndCause string
 	// statistics
-	MaxReady     int
-	MultiReady   uint64 // steps at which >= 2 choices were enabled
-	EventsFired  uint64
-	pctChange    map[uint64]bool
-	last         *Thread
-	onStep       func()
-	YieldCounts  map[string]uint64
-	doneAt       time.Time
-	allDone      bool
-	LeakedLocks  []string
-	maps         map[uintptr]*mapState
-	MapRaces     []MapRace
-	MaxStepWall  time.Duration // most CPU time the process consumed during a single scheduling step
-	MaxStepName  string
-	stepStartReal time.Duration
+	MaxReady       int
+	MultiReady     uint64 // steps at which >= 2 choices were enabled
+	EventsFired    uint64
+	pctChange      map[uint64]bool
+	last           *Thread
+	onStep         func()
+	YieldCounts    map[string]uint64
+	doneAt         time.Time
+	allDone        bool
+	LeakedLocks    []string
+	maps           map[uintptr]*mapState
+	MapRaces       []MapRace
+	MaxStepWall    time.Duration // most CPU time the process consumed during a single scheduling step
+	MaxStepName    string
+	stepStartReal  time.Duration
 	stepStartAlloc uint64
-	MaxStepAlloc  uint64 // most bytes allocated during a single scheduling step (TrackAlloc)
-	MaxAllocName  string
-	TrackAlloc    bool
-	allocSample   []metrics.Sample
-	stepThread   *Thread
-	HB           bool // happens-before tracking for the map monitor (costly; enabled per scenario)
-	chanHB       SyncObj
+	MaxStepAlloc   uint64 // most bytes allocated during a single scheduling step (TrackAlloc)
+	MaxAllocName   string
+	TrackAlloc     bool
+	allocSample    []metrics.Sample
+	stepThread     *Thread
+	HB             bool // happens-before tracking for the map monitor (costly; enabled per scenario)
+	chanHB         SyncObj
 }
 
 var (
@@ -140,6 +142,17 @@ var (
 )
 
 // Cur returns the active simulation or nil.
+// fnYieldOn is read without a lock by FnYield (set before a simulation starts, cleared when it ends; the token
+// discipline orders every reader after the writer).
+var fnYieldOn atomic.Bool
+
+// FnYield is inserted by simify at the entry of every function of the instrumented packages.
+func FnYield() {
+	if fnYieldOn.Load() {
+		Yield("fn")
+	}
+}
+
 func Cur() *Sim {
 	curMu.Lock()
 	defer curMu.Unlock()
@@ -150,6 +163,7 @@ func setCur(s *Sim) {
 	curMu.Lock()
 	cur = s
 	curMu.Unlock()
+	fnYieldOn.Store(s != nil && s.cfg.FnYield)
 }
 
 // allocBytes returns the cumulative number of heap bytes allocated by the process (cheap, no stop-the-world).
